@@ -312,6 +312,7 @@ func (se *specEnv) sel(x sval, name string) sval {
 		return sval{t: ref, typ: ft, sort: "Int", addr: &a}
 	}
 	v := fr.selectComp(a)
+	fr.loadFacts(ft, v) // machine range / slice well-formedness / allocation watermark are type invariants
 	return sval{t: v, typ: ft, sort: sortOf(ft), addr: &a}
 }
 
